@@ -36,7 +36,7 @@ _SAN_RE = [
 ]
 _ASSERT_RE = re.compile(r"Assertion `(.*)' failed")
 _GLIBCXX_RE = re.compile(r"Assertion '(.*)' failed")
-_FRAME_RE = re.compile(r"#\d+ 0x[0-9a-f]+ in (\S+)")
+_FRAME_RE = re.compile(r"#\d+ (?:0x[0-9a-f]+ in )?([A-Za-z_][^\s(]*)")  # ASan "#0 0x.. in f" and TSan "#0 f file:line"
 
 
 def _unodb_frames(text, limit=2):
